@@ -153,3 +153,11 @@ func SameSlice[T comparable](a, b []T) bool {
 	}
 	return true
 }
+
+// ForallRef quantifies over every reference of type *T, allocated or not (used for axioms about
+// objects of external packages, which kvc does not track as allocated). Proof-only.
+func ForallRef[T any](body func(p *T) bool) bool { panic("verifspec: proof-only quantifier") }
+
+// ForallOldPtr quantifies over the objects that were allocated in the pre-state of the enclosing
+// contract (objects created since are not constrained). Proof-only.
+func ForallOldPtr[T any](body func(p *T) bool) bool { panic("verifspec: proof-only quantifier") }
